@@ -2109,6 +2109,111 @@ func TestVerifReplay(t *testing.T) {
 func init() { replayGens["c15"] = replayC15 }
 
 func replayC15(o *Obligation) (string, string, string, bool) {
+	if strings.HasPrefix(o.Name, "promise.") {
+		src := `package promise
+
+import (
+	"sync"
+	"sync/atomic"
+	"testing"
+)
+
+// oracle: every callback of a one-shot event runs exactly once - registered before, during or after Trigger, by any
+// number of goroutines (bounded stress: the interleaving is not forced)
+func TestVerifReplay(t *testing.T) {
+	for round := 0; round < 150; round++ {
+		const goroutines, each = 8, 200
+		e := NewEvent()
+		e1 := NewEvent1[int]()
+		calls := make([]atomic.Int32, 2*goroutines*each)
+		var wg sync.WaitGroup
+		for g := 0; g < goroutines; g++ {
+			wg.Add(1)
+			go func(g int) {
+				defer wg.Done()
+				for i := 0; i < each; i++ {
+					k := g*each + i
+					e.OnTrigger(func() { calls[k].Add(1) })
+					e1.OnTrigger(func(int) { calls[goroutines*each+k].Add(1) })
+					if round%2 == 1 && g == 0 && i == each/2 {
+						e.Trigger()
+						e1.Trigger(7)
+					}
+				}
+			}(g)
+		}
+		wg.Wait()
+		e.Trigger()
+		e1.Trigger(7)
+		missed, twice := 0, 0
+		for k := range calls {
+			switch calls[k].Load() {
+			case 0:
+				missed++
+			case 1:
+			default:
+				twice++
+			}
+		}
+		if missed != 0 || twice != 0 {
+			t.Fatalf("REPLAY-VIOLATION promise events, round %d: of %d callbacks registered by %d goroutines, %d were never called and %d were called more than once", round, len(calls), goroutines, missed, twice)
+		}
+	}
+}
+`
+		return "runtime", "promise", src, true
+	}
+	if strings.HasPrefix(o.Name, "event.") {
+		src := `package event
+
+import (
+	"fmt"
+	"testing"
+)
+
+// oracle: each Trigger calls every hook that is attached and not unhooked exactly once, in attachment order - also
+// after hooks were removed (by themselves, by their trigger limit, or from outside) and new ones attached
+func TestVerifReplay(t *testing.T) {
+	var log []string
+	e := New1[int]()
+	mk := func(name string) func(int) { return func(v int) { log = append(log, fmt.Sprintf("%s%d", name, v)) } }
+	a := e.Hook(mk("A"))
+	e.Hook(mk("B"))
+	e.Trigger(1)
+	a.Unhook()
+	c := e.Hook(mk("C"))
+	e.Trigger(2)
+	e.Hook(mk("D"), WithMaxTriggerCount(1))
+	var self *Hook[func(int)]
+	self = e.Hook(func(v int) { log = append(log, fmt.Sprintf("S%d", v)); self.Unhook() })
+	e.Hook(mk("E"))
+	e.Trigger(3)
+	e.Trigger(4)
+	c.Unhook()
+	e.Hook(mk("F"))
+	e.Trigger(5)
+	want := "[A1 B1 B2 C2 B3 C3 D3 S3 E3 B4 C4 E4 B5 E5 F5]"
+	if got := fmt.Sprint(log); got != want {
+		t.Fatalf("REPLAY-VIOLATION event hooks: the calls were %s, expected %s", got, want)
+	}
+	// linking: an event fires once per trigger of its current target and no longer for a former one
+	log = nil
+	t1, t2, l := New1[int](), New1[int](), New1[int]()
+	l.Hook(mk("L"))
+	l.LinkTo(t1)
+	t1.Trigger(1)
+	l.LinkTo(t2)
+	t1.Trigger(2)
+	t2.Trigger(3)
+	l.LinkTo(nil)
+	t2.Trigger(4)
+	if got := fmt.Sprint(log); got != "[L1 L3]" {
+		t.Fatalf("REPLAY-VIOLATION linked event: the calls were %s, expected [L1 L3]", got)
+	}
+}
+`
+		return "runtime", "event", src, true
+	}
 	if !strings.HasPrefix(o.Name, "valuenotifier.") {
 		return "", "", "", false
 	}
